@@ -22,8 +22,10 @@
 
     cmp <eq|ne|lt|le|gt|ge|pcmp> <a> <b>     PartialEq / PartialOrd of records or traces
                                               → c=true|false   (pcmp: c=less|equal|greater|none)
-    clone r6 <a>                             Clone: r6 names a copy of <a>
+    clone r6 <a> via=clone|clone_from        Clone: r6 names a copy of <a>
     show <a>                                 Display → s=<the number>
+    debug <a>                                Debug (`{:?}`) of the record / trace → dbg ## <text>
+    debugd <a>                               Debug of `derivatives()` of a record → dbg ## <text>
 
   Core Lean only.
 -/
@@ -38,10 +40,13 @@ class Elem (R : Type) extends Add R, Sub R, Mul R, Div R, Neg R, Zero R, One R, 
     NumOrd R where
   parse : String → Option R
   render : R → String
+  /-- `{:?}` of the element type in the harness (`Fp(5)`, `Rat { n: 3, d: 2 }`) -/
+  debug : R → String
 
 instance : Elem Fp where
   parse s := s.toNat?.map Fp.ofNat
   render a := toString a.val
+  debug a := s!"Fp({a.val})"
 
 /-- `Rat` is not a `Real` type of the Rust harness: rational cases never contain real-function
     lines, this instance only makes the generic driver typecheck. -/
@@ -66,6 +71,7 @@ def parseRat (s : String) : Option Rat :=
 instance : Elem Rat where
   parse := parseRat
   render := showRat
+  debug q := "Rat { n: " ++ toString q.num ++ ", d: " ++ toString q.den ++ " }"
 
 section
 variable {R : Type} [Elem R]
@@ -172,6 +178,27 @@ def knownOp (toks : List String) : Bool :=
     ["const", "var", "neg", "sum", "pow", "pown", "npow", "unary", "binary"].contains op
       || (arithOf op).isSome || (arithNumOf op).isSome || (swappedOf op).isSome || (realOf op).isSome
   | [] => false
+
+/-- `#[derive(Debug)]` of `Operation`, `WengertList` (a `RefCell<Vec<_>>`), `Record`, `Trace`,
+    `Derivatives`, as `{:?}` prints them -/
+def debugOp (op : Op R) : String :=
+  "Operation { left_parent: " ++ toString op.leftParent ++ ", right_parent: " ++
+    toString op.rightParent ++ ", left_derivative: " ++ Elem.debug op.leftDerivative ++
+    ", right_derivative: " ++ Elem.debug op.rightDerivative ++ " }"
+
+def debugRec (w : World R) (r : Rec R) : String :=
+  let hist := match r.history with
+    | none => "None"
+    | some h => "Some(WengertList { operations: RefCell { value: [" ++
+        ", ".intercalate ((w h).map debugOp) ++ "] } })"
+  "Record { number: " ++ Elem.debug r.number ++ ", history: " ++ hist ++ ", index: " ++
+    toString r.index ++ " }"
+
+def debugDual (d : Dual R) : String :=
+  "Trace { number: " ++ Elem.debug d.number ++ ", derivative: " ++ Elem.debug d.derivative ++ " }"
+
+def debugDerivs (d : List R) : String :=
+  "Derivatives { derivatives: [" ++ ", ".intercalate (d.map Elem.debug) ++ "] }"
 
 /-- answer of a comparison line from the two results `==` and `partial_cmp` gave -/
 def cmpAnswer (op : String) (eqv : Bool) (pc : Option Ordering) : Option String :=
